@@ -265,6 +265,9 @@ pub struct Scenario {
     pub pct: Option<(usize, usize)>,
     #[serde(default)]
     pub shared_doc: bool,
+    /// scheduling points inside the engine (every expression node), not only at document calls
+    #[serde(default)]
+    pub engine_seams: bool,
     #[serde(default)]
     pub ops: Vec<Op>,
     #[serde(default)]
@@ -296,6 +299,7 @@ impl Scenario {
             + if self.render.ints_signed { 2 } else { 0 }
             + 4 * self.render.orders.len()
             + if self.shared_doc { 2 } else { 0 }
+            + if self.engine_seams { 2 } else { 0 }
             + if self.pct.is_some() { 2 } else { 0 }
     }
 }
